@@ -206,7 +206,7 @@ pub fn decode(tape: &[u32]) -> (G, Vec<char>, &'static str) {
 /// hand-shaped templates: one per failure-bookkeeping site named in the property's anchors
 pub fn templates() -> Vec<G> {
     let j = |s: &str| G::Just(s.into());
-    let rep = |item: G, lo: u8, hi: Option<u8>| G::Rep(Rep { item: b(item), sep: None, leading: false, trailing: false, lo, hi, sink: Sink::Vec, cfg: false });
+    let rep = |item: G, lo: u8, hi: Option<u8>| G::Rep(Rep { item: b(item), sep: None, leading: false, trailing: false, lo, hi, sink: Sink::Vec, cfg: false, ctxb: 0 });
     let mut out = vec![
         // later alternative fails earlier: the earlier, further failure must be kept
         G::Or(b(G::Then(b(j("ab")), b(j("c")))), b(j("b"))),
